@@ -21,13 +21,13 @@ def tla_set(xs):
 # Access family: C03 (pair-verify machine + session switch) and C01 (gating layer)
 # =====================================================================================================
 
-ACCESS_FINISH = ["genuine", "wrongkey", "stale", "reordered", "replayed", "unknown", "self", "selfkey", "replayown", "reflect", "crossname", "badseal", "short", "badtlv"]
+ACCESS_FINISH = ["genuine", "genuine_inject", "wrongkey", "stale", "reordered", "replayed", "unknown", "self", "selfkey", "replayown", "reflect", "crossname", "badseal", "short", "badtlv"]
 ACCESS_OPS = ["GetAcc", "GetChar", "PutVal", "PutSub", "Resource", "AddPair", "RemPair"]
 ACCESS_NOISE = ["psstart", "pswrong", "pszero"]
-ACCESS_GUARDS = ["accessory_key_fresh_per_exchange", "accessory_is_not_a_controller", "rejected_start_keeps_waiting", "key_looked_up_per_finish", "session_installed_only_without_error", "signature_checked", "authenticate_checks_verified",
+ACCESS_GUARDS = ["one_request_at_a_time_before_the_session", "accessory_key_fresh_per_exchange", "accessory_is_not_a_controller", "rejected_start_keeps_waiting", "key_looked_up_per_finish", "session_installed_only_without_error", "signature_checked", "authenticate_checks_verified",
                  "authenticate_returns_after_refusal", "pairings_behind_auth", "resource_behind_auth"]
 ACCESS_RULES = {"VerifiedRule": "C03", "ErrorRule": "C03", "PlainStaysPlain": "C03",
-                "GateRule": "C01", "RefusalChangesNothing": "C01", "OnlyVerifiedGetEvents": "C01", "NoCarryOver": "C01"}
+                "GateRule": "C01", "NoPlainInSession": "C01", "RefusalChangesNothing": "C01", "OnlyVerifiedGetEvents": "C01", "NoCarryOver": "C01"}
 
 
 def access_cfg(evil, legit, finish, lens, ops, noise, weak=(), tail='', consts=''):
@@ -49,7 +49,7 @@ CHECK_DEADLOCK FALSE
 def access_slices(prop):
     if prop == 'C03':
         return dict(finish=ACCESS_FINISH, lens=["ok", "sameA", "short", "long", "empty"], ops=["GetAcc"], noise=[])
-    return dict(finish=["genuine", "wrongkey", "self", "selfkey", "reflect", "crossname"], lens=["ok"], ops=ACCESS_OPS, noise=ACCESS_NOISE)
+    return dict(finish=["genuine", "genuine_inject", "wrongkey", "self", "selfkey", "reflect", "crossname"], lens=["ok"], ops=ACCESS_OPS, noise=ACCESS_NOISE)
 
 
 def access_generate(run):
@@ -143,6 +143,10 @@ def access_family(run, replay=None):
     nontrivial = len(set(canon_word(b['steps']) for b in behs if any(s.get('exp') not in ('HttpError', 'Refused', 'BadRequest', 'Any', 'none') for s in b['steps'])))
     cov = mc_summary(run)
     cov.update(stats)
+    import collections
+    inj = collections.Counter('%s: finish %s, appended request %s' % (x.get('reframed'), 'accepted' if (x.get('http') == 200 and x.get('err') == 0) else 'refused',
+                              'SERVED' if x.get('injserved') else 'not served') for x in lines if x.get('ev') == 'step' and x.get('p') == 'genuine_inject')
+    cov['requests_appended_to_a_genuine_finish'] = dict(inj)
     if not replay and run.tier == 'thorough':
         cov['binding_selftest'] = binding_selftest(run, 'AccessTrace', lines, viols, CORRUPTIONS['access'])
     cov.update(dict(
